@@ -1,19 +1,19 @@
 SPECIFICATION Spec
 CONSTANTS
   Hosts = {"h1", "h2"}
-  Realms = {"ra", "rb"}
-  RS = {"p", "q"}
+  Realms = {"ra"}
+  RS = {"p"}
   Slots = {1}
-  CfgSet <- CfgThorough
-  OfferSets <- OffersAll
+  CfgSet <- CfgTime
+  OfferSets <- OffersSmall
   Lives = {0, 2, 4}
   TPS = 2
-  MaxClock = 4
-  MaxCalls = 2
+  MaxClock = 5
+  MaxCalls = 3
   MaxTok = 2
   MaxRT = 2
-  Bodies = {"none", "plain", "getbody"}
-  Statuses <- StatusAll
+  Bodies = {"plain"}
+  Statuses <- StatusFew
   TickWhile = {"idle", "resp1wait", "resp2wait", "tokwait"}
 INVARIANT Inv
 CHECK_DEADLOCK FALSE
